@@ -78,6 +78,9 @@ inductive Obs
   | announce (f : Fid)                    -- the result of `f` is handed to the calls waiting for it (`inflight.done`)
   | retire (f : Fid)                      -- `f` is over: cache updated if it succeeded, no call can join it any more
   | point (p : Party) (name : String)     -- another schedule point was reached (no meaning for the property)
+  | ask (c : Cid)                         -- call `c`, not answered by the cache, turns to the key set's (shared) download: it is released from the
+                                          -- schedule point in front of `keysFromRemote`'s critical section. The refresh that answers it must still be
+                                          -- under way at this instant (linearisation point of "triggers a refresh" / "after at most one refresh")
   deriving Repr, Inhabited
 
 /-- functional update of a table indexed by naturals -/
